@@ -278,6 +278,27 @@ def r15_copy(ctx):
             ctx.require(ok, 'R15.1', f'copy({label}, data=<{kind}>) against the constructor', ctx.where(cp),
                         f'copy(data=<{kind} 1, 2>) and the constructor called with the same values give {str(outs)[:300]}: the two must be equal, '
                         'the data kept the same way', construct=f'{cp.qname}::{cls_.name}::agrees-with-constructor')
+    # ... and in what is refused: a value the constructor does not take as data (an integer is not a sequence of bytes; bytes(5)
+    # would make five zero bytes of it) is not taken by copy(data=...) either, and with skip_checks=True both keep an
+    # out-of-range byte as it is
+    o, scp = ctx.p.lookup_method(scls, 'copy')
+    for what, val, extra in (('the int 5', 5, {}), ('True', True, {}), ('[300] with skip_checks=True', AList([300], 'list'), {'skip_checks': True})):
+        def summary(outs):
+            res = []
+            for o_ in outs:
+                if o_.kind == 'return' and isinstance(o_.value, AObj):
+                    d_ = o_.value.attrs.get('data')
+                    res.append(('return', tuple(d_.items) if isinstance(d_, AList) else tuple(d_) if isinstance(d_, (list, tuple)) else repr(d_)))
+                elif o_.kind == 'raise':
+                    res.append(('raise', o_.exc))
+                else:
+                    res.append((o_.kind, repr(o_.value)[:80]))
+            return sorted(res, key=repr)
+        by_copy = summary(ai.explore(lambda: ai.call_function(scp, [ai.apply(_CR(scls), ['sysex'], {'time': 3}, None)], dict(extra, data=val))))
+        by_ctor = summary(ai.explore(lambda: ai.apply(_CR(scls), ['sysex'], dict(extra, time=3, data=val), None)))
+        ctx.require(by_copy == by_ctor and len(by_ctor) == 1, 'R15.1', f'copy(sysex, data={what}) against the constructor', ctx.where(scp),
+                    f'copy gives {by_copy}, the constructor called with the same values gives {by_ctor}: the two must agree',
+                    construct=f'{scp.qname}::Message::refuses-what-the-constructor-refuses')
     for q in ai.inlined:
         ctx.functions.add(q)
 
